@@ -180,7 +180,7 @@ Proof.
   destruct k as [|y k]; [simpl in H1; discriminate|].
   unfold leb in *. simpl in H1, H2.
   destruct (N.compare_spec x y) as [E|L|G]; subst.
-  - rewrite N.compare_refl in H2. rewrite N.eqb_refl. simpl. eapply IH; eauto.
+  - rewrite N.compare_refl in H2. rewrite N.eqb_refl, ?N.compare_refl. simpl. eapply IH; eauto.
   - assert (G : (y ?= x) = Gt) by (apply N.compare_gt_iff; lia). rewrite G in H2. discriminate.
   - discriminate.
 Qed.
@@ -191,8 +191,8 @@ Proof.
   induction k as [|y k IH]; intros e.
   - destruct e; reflexivity.
   - destruct e as [|x e].
-    + unfold ltb, leb. simpl. destruct (N.compare_spec y 0); try reflexivity; try lia. destruct k; reflexivity.
-    + unfold ltb, leb in *. simpl. destruct (y ?= x); auto. apply IH.
+    + unfold ltb, leb. simpl. destruct (N.compare_spec y 0); try reflexivity; try lia; destruct k; reflexivity.
+    + unfold ltb, leb in *. simpl. destruct (y ?= x); auto.
 Qed.
 
 (* ---- pkg/db/db.go upperBound: increment the last byte that is not 0xff and cut there; nil if none ---- *)
@@ -230,25 +230,25 @@ Proof.
     destruct (upper_bound p) as [u|] eqn:Eu.
     + simpl below_ub in *. unfold leb, ltb in *. simpl.
       destruct (N.compare_spec x y) as [E|L|G]; subst.
-      * rewrite N.eqb_refl. simpl. exact IH.
+      * rewrite N.eqb_refl, ?N.compare_refl. simpl. exact IH.
       * assert (Hn : (x =? y) = false) by (apply N.eqb_neq; lia). rewrite Hn. simpl.
         assert (G : (y ?= x) = Gt) by (apply N.compare_gt_iff; lia). rewrite G. reflexivity.
       * assert (Hn : (x =? y) = false) by (apply N.eqb_neq; lia). rewrite Hn. reflexivity.
     + simpl below_ub in IH. rewrite andb_true_r in IH.
       destruct ((x + 1) mod 256 =? 0) eqn:Ez.
       * (* x = 255 *)
-        apply N.eqb_eq in Ez. assert (x = 255).
+        apply N.eqb_eq in Ez. assert (Hx255 : x = 255).
         { destruct (N.eq_dec x 255); auto. rewrite N.mod_small in Ez by lia. lia. }
-        subst x. simpl below_ub. rewrite andb_true_r. unfold leb in *. simpl.
-        destruct (N.compare_spec 255 y) as [E|L|G]; subst.
-        -- simpl. exact IH.
+        simpl below_ub. rewrite andb_true_r. unfold leb in *. cbn [is_prefix lex_cmp].
+        destruct (N.compare_spec x y) as [E|L|G].
+        -- subst y. rewrite N.eqb_refl. simpl. exact IH.
         -- lia.
-        -- assert (Hn : (255 =? y) = false) by (apply N.eqb_neq; lia). rewrite Hn. reflexivity.
+        -- assert (Hn : (x =? y) = false) by (apply N.eqb_neq; lia). rewrite Hn. reflexivity.
       * apply N.eqb_neq in Ez. assert (Hx' : x < 255).
         { destruct (N.eq_dec x 255); [subst; exfalso; apply Ez; reflexivity|lia]. }
         rewrite N.mod_small by lia. simpl below_ub. unfold leb, ltb in *. simpl.
         destruct (N.compare_spec x y) as [E|L|G]; subst.
-        -- rewrite N.eqb_refl. simpl.
+        -- rewrite N.eqb_refl, ?N.compare_refl. simpl.
            assert (L : (y ?= y + 1) = Lt) by (apply N.compare_lt_iff; lia). rewrite L.
            rewrite andb_true_r. exact IH.
         -- assert (Hn : (x =? y) = false) by (apply N.eqb_neq; lia). rewrite Hn. simpl.
